@@ -252,6 +252,8 @@ def _vec_case(rng, spec, tables):
             inp[p] = str(rng.choice(["nist", "cheng", "cheng", "nist", "other"]))
         elif t == "str":
             inp[p] = str(rng.choice(strings))
+        elif t == "n":
+            inp[p] = float(rng.choice([-2.0, -1.0, 1.0, 2.0, 0.0, float(rng.uniform(-3, 3))]))
         elif t == "v" and p == "weights":
             w = rng.random(n) + 0.05
             inp[p] = [float(x) for x in (w / w.sum() if (n and rng.random() < 0.7) else w * float(rng.choice([0.0, 1.0, 3.0])))]
@@ -281,6 +283,8 @@ def _vec_line(spec, tables, inp):
         v = inp[p]
         if t == "str":
             toks.append(v if v != "" else "\"\"")
+        elif t == "n":
+            toks.append(hexf(v))
         elif t == "v":
             toks += [str(len(v))] + ["none" if x != x else hexf(x) for x in v]
         elif t == "b":
